@@ -1,0 +1,124 @@
+//go:build verif
+
+package dkg
+
+import (
+	"github.com/keep-network/keep-core/pkg/net"
+	"github.com/keep-network/keep-core/pkg/protocol/group"
+	"github.com/keep-network/keep-core/pkg/protocol/state"
+)
+
+// Verification hook (build tag verif, property C12): builds the message
+// receiving states around a bare member and re-exports their Receive methods
+// and message history. No protocol logic is added.
+
+type VerifC12Receiver struct {
+	Receive func(msg net.Message) error
+	Stored  func() int
+}
+
+func VerifC12StateKinds() []string {
+	return []string{"epk", "symkey", "tss1", "tss2", "tss3", "final", "result"}
+}
+
+func VerifC12MessageKinds() []string {
+	return []string{"epk", "tss1", "tss2", "tss3", "final"}
+}
+
+func VerifC12NewReceiver(
+	kind string,
+	self group.MemberIndex,
+	grp *group.Group,
+	membershipValidator *group.MembershipValidator,
+	sessionID string,
+) *VerifC12Receiver {
+	base := state.NewBaseAsyncState()
+	stored := func() int {
+		n := 0
+		for _, t := range []string{
+			(&ephemeralPublicKeyMessage{}).Type(),
+			(&tssRoundOneMessage{}).Type(),
+			(&tssRoundTwoMessage{}).Type(),
+			(&tssRoundThreeMessage{}).Type(),
+			(&tssFinalizationMessage{}).Type(),
+			(&resultSignatureMessage{}).Type(),
+		} {
+			n += len(base.GetAllReceivedMessages(t))
+		}
+		return n
+	}
+	m := &member{
+		id:                  self,
+		group:               grp,
+		membershipValidator: membershipValidator,
+		sessionID:           sessionID,
+	}
+	ekm := &ephemeralKeyPairGeneratingMember{member: m}
+	skm := &symmetricKeyGeneratingMember{ephemeralKeyPairGeneratingMember: ekm}
+	t1 := &tssRoundOneMember{symmetricKeyGeneratingMember: skm}
+	t2 := &tssRoundTwoMember{tssRoundOneMember: t1}
+	t3 := &tssRoundThreeMember{tssRoundTwoMember: t2}
+	fm := &finalizingMember{tssRoundThreeMember: t3}
+
+	switch kind {
+	case "epk":
+		st := &ephemeralKeyPairGenerationState{BaseAsyncState: base, member: ekm}
+		return &VerifC12Receiver{st.Receive, stored}
+	case "symkey":
+		st := &symmetricKeyGenerationState{BaseAsyncState: base, member: skm}
+		return &VerifC12Receiver{st.Receive, stored}
+	case "tss1":
+		st := &tssRoundOneState{BaseAsyncState: base, member: t1}
+		return &VerifC12Receiver{st.Receive, stored}
+	case "tss2":
+		st := &tssRoundTwoState{BaseAsyncState: base, member: t2}
+		return &VerifC12Receiver{st.Receive, stored}
+	case "tss3":
+		st := &tssRoundThreeState{BaseAsyncState: base, member: t3}
+		return &VerifC12Receiver{st.Receive, stored}
+	case "final":
+		st := &finalizationState{BaseAsyncState: base, member: fm}
+		return &VerifC12Receiver{st.Receive, stored}
+	case "result":
+		st := &resultSigningState{
+			BaseAsyncState: base,
+			member: newSigningMember(
+				nil, self, grp, membershipValidator, sessionID,
+			),
+		}
+		return &VerifC12Receiver{st.Receive, stored}
+	}
+	return nil
+}
+
+func VerifC12NewMessage(
+	kind string,
+	senderID group.MemberIndex,
+	sessionID string,
+) net.TaggedMarshaler {
+	switch kind {
+	case "epk":
+		return &ephemeralPublicKeyMessage{senderID: senderID, sessionID: sessionID}
+	case "tss1":
+		return &tssRoundOneMessage{senderID: senderID, sessionID: sessionID}
+	case "tss2":
+		return &tssRoundTwoMessage{senderID: senderID, sessionID: sessionID}
+	case "tss3":
+		return &tssRoundThreeMessage{senderID: senderID, sessionID: sessionID}
+	case "final":
+		return &tssFinalizationMessage{senderID: senderID, sessionID: sessionID}
+	}
+	return nil
+}
+
+func VerifC12NewResultSignatureMessage(
+	senderID group.MemberIndex,
+	publicKey []byte,
+	sessionID string,
+) net.TaggedMarshaler {
+	return &resultSignatureMessage{
+		senderID:  senderID,
+		publicKey: publicKey,
+		sessionID: sessionID,
+	}
+}
